@@ -1,6 +1,152 @@
-import Driver.Common
-namespace Rtp.Kinds.Av1
-open Rtp Rtp.Proto
+/-
+  Driver/Kinds/Av1.lean — case kinds of the AV1 group (C13, C15 AV1 half, C08/C09 AV1 parts).
 
-def handlers : List (String × Handler) := []
+  token formats (mirrored by harness/kinds_av1.go)
+    hdr     <type> (none | some <t> <s> <r>) <hasSize> <reserved1>
+    obu     hdr <payload bytes>
+    view    <z> <y> <w> <n> <list bytes>
+-/
+import Driver.Common
+import Rtp.Model.AV1Obs
+namespace Rtp.Kinds.Av1
+open Rtp Rtp.Proto Rtp.Model Rtp.Model.AV1 Rtp.Spec.Av1Rtp
+
+/-! ### readers -/
+
+def rdHdr : Rd ObuHeader := do
+  let t ← Rd.u8
+  let e ← Rd.opt (do let a ← Rd.u8; let b ← Rd.u8; let c ← Rd.u8
+                     pure ({ temporalID := a, spatialID := b, reserved3 := c } : ExtHdr))
+  let s ← Rd.bool; let r ← Rd.bool
+  pure { type := t, ext := e, hasSize := s, reserved1 := r }
+
+def rdObu : Rd Obu := do let h ← rdHdr; let p ← Rd.bytes; pure { hdr := h, payload := p }
+
+def rdView : Rd Pred.C13.PktView := do
+  let z ← Rd.bool; let y ← Rd.bool; let w ← Rd.nat; let n ← Rd.bool; let es ← Rd.list Rd.bytes
+  pure { z := z, y := y, w := w, n := n, elems := es }
+
+/-! ### c13.rt -/
+
+structure RtIn where
+  mtu : UInt16
+  obus : List Obu
+  stream : Bytes
+
+/-- `<mtu> <list obu> <stream>`; the stream the harness built with its own serialiser must be the
+    specification's serialisation of the OBU list (otherwise the case is a harness error) -/
+def rdRtIn : Rd RtIn := do
+  let m ← Rd.u16; let os ← Rd.list rdObu; let s ← Rd.bytes
+  if serialise os == s then pure { mtu := m, obus := os, stream := s } else Rd.fail
+
+def rdRtObs : Rd Pred.C13.RtObs := do
+  let t ← Rd.tok
+  match t with
+  | "panic" => pure { panicked := true, payloads := [], views := [], frames := [], depack := [] }
+  | "ok" => do
+    let ps ← Rd.list Rd.bytes
+    let vs ← Rd.list (Rd.resC rdView)
+    let fs ← Rd.list (Rd.list Rd.bytes)
+    let ds ← Rd.list (Rd.resC Rd.bytes)
+    pure { panicked := false, payloads := ps, views := vs, frames := fs, depack := ds }
+  | _ => Rd.fail
+
+def rt : Handler :=
+  mkHandler rdRtIn rdRtObs (fun i => rtObs i.mtu i.stream)
+    (fun i o => Pred.C13.rt i.mtu.toNat i.obus o)
+    (fun i => Pred.C13.rtWF i.mtu.toNat i.obus)
+
+/-! ### c13.leb, c13.lebrd -/
+
+def rdRead : Rd (Option (UInt64 × Nat)) := Rd.opt (do let v ← Rd.u64; let k ← Rd.nat; pure (v, k))
+
+def leb : Handler :=
+  mkHandler (do let n ← Rd.u64; let t ← Rd.bytes; pure (n, t))
+    (do let w ← Rd.bytes; let r ← rdRead; pure ({ written := w, read := r } : Pred.C13.LebObs))
+    (fun (n, t) => lebObs n t)
+    (fun (n, _) o => Pred.C13.leb n o)
+    (fun (n, _) => decide (n.toNat < 2 ^ 32))
+
+/-- ReadLeb128 on arbitrary bytes: correspondence with `readLebGo` only -/
+def lebrd : Handler :=
+  mkHandler Rd.bytes rdRead (fun b => readLebGo b) (fun _ _ => true)
+
+/-! ### c13.obuhdr, c13.obumar -/
+
+def rdResHdr : Rd (Res ObuHeader) := Rd.resC rdHdr
+
+def obuhdr : Handler :=
+  mkHandler Rd.bytes
+    (do let p ← rdResHdr; let s ← Rd.nat; let b ← Rd.bytes; let r ← rdResHdr
+        pure ({ parsed := p, size := s, bytes := b, reparsed := r } : Pred.C13.HdrObs))
+    hdrObs (fun bs o => Pred.C13.hdr bs o)
+
+def obumar : Handler :=
+  mkHandler rdHdr
+    (do let b ← Rd.bytes; let s ← Rd.nat; let r ← rdResHdr
+        pure ({ bytes := b, size := s, reparsed := r } : Pred.C13.MarObs))
+    marObs
+    (fun h o => Pred.C13.mar h o)
+    (fun h => hdrWF h)
+
+/-- `c13.obuwire <obu> => <bytes>` : OBU.Marshal -/
+def obuwire : Handler :=
+  mkHandler rdObu Rd.bytes (fun o => o.wire) (fun o b => Pred.C13.obuwire o b) (fun o => hdrWF o.hdr)
+
+/-- `c13.encleb <n> => <u64>` : EncodeLEB128 -/
+def encleb : Handler :=
+  mkHandler Rd.u64 Rd.u64 (fun n => encodeLeb128Go 10 n 0) (fun n o => Pred.C13.encleb n o)
+    (fun n => decide (n.toNat < 2 ^ 56))
+
+/-! ### c15.av1 -/
+
+def resync : Handler :=
+  mkHandler (do let pre ← Rd.list Rd.obytes; let fr ← Rd.list Rd.bytes; pure (pre, fr))
+    (do let u ← Rd.list (Rd.resC Rd.bytes); let f ← Rd.list (Rd.resC Rd.bytes)
+        pure ({ used := u, fresh := f } : Pred.C15Av1.Obs))
+    (fun (pre, fr) => resyncObs pre fr)
+    (fun (_, fr) o => Pred.C15Av1.resync fr o)
+    (fun (_, fr) => Pred.C15Av1.frameStarts fr)
+
+/-! ### c08.av1 -/
+
+def c08 : Handler :=
+  mkHandler rdCalls rdPayObsList
+    c08Obs
+    (fun calls os => Pred.C08.histOk false calls os)
+
+/-! ### c09.av1 -/
+
+def rdDepObs : Rd (Pred.C09.DepObs Pred.C09Av1.Md) := do
+  let r ← Rd.resC Rd.bytes
+  let z ← Rd.bool; let y ← Rd.bool; let n ← Rd.bool
+  let h ← Rd.bool; let t0 ← Rd.bool; let t1 ← Rd.bool
+  let ap ← Rd.bool; let fs ← Rd.bool; let ts ← Rd.bool
+  pure { res := r, md := { z := z, y := y, n := n }, head := h, tail0 := t0, tail1 := t1,
+         auxPanic := ap, freshSame := fs, twinSame := ts }
+
+def c09 : Handler :=
+  -- input: the SetZeroAllocation option (no effect on AV1Depacketizer: the model ignores it), payloads
+  mkHandler (do let _z ← Rd.bool; let ps ← Rd.list Rd.obytes; pure ps) (Rd.list rdDepObs) (depObsOf {})
+    (fun _ os => Pred.C09.histOk false os)
+
+/-! ### c09.av1packet -/
+
+def rdPktCall : Rd Pred.C09Av1.PktCall := do
+  let r ← Rd.resC Rd.bytes
+  let z ← Rd.bool; let y ← Rd.bool; let w ← Rd.nat; let n ← Rd.bool
+  let es ← Rd.list Rd.bytes
+  let fr ← Rd.resC (Rd.list Rd.bytes)
+  let ts ← Rd.bool
+  pure { res := r, z := z, y := y, w := w, n := n, elems := es, frames := fr, twinSame := ts }
+
+def c09pkt : Handler :=
+  mkHandler (do let r ← Rd.bool; let ps ← Rd.list Rd.obytes; pure (r, ps)) (Rd.list rdPktCall)
+    (fun (r, ps) => pktCallsOf r {} [] ps)
+    (fun _ os => Pred.C09Av1.histOk os)
+
+def handlers : List (String × Handler) :=
+  [("c13.rt", rt), ("c13.leb", leb), ("c13.lebrd", lebrd), ("c13.obuhdr", obuhdr),
+   ("c13.obumar", obumar), ("c13.obuwire", obuwire), ("c13.encleb", encleb), ("c15.av1", resync), ("c08.av1", c08), ("c09.av1", c09),
+   ("c09.av1packet", c09pkt)]
 end Rtp.Kinds.Av1
